@@ -26,7 +26,13 @@ and by the theorem predicates evaluated (extracted) on the model states the real
       under generated SEGMENTATIONS (whole, byte-wise, every single cut, cuts inside every CRLF, random cut
       sets; harness.chanpipe.SegScenario) across lookahead 0/1/5: a request whose parsing depends on how the
       bytes arrive reaches the application differently from how the client sent it.  The model abstracts
-      parsing (a request is an id), so (e) is monitor-only as well.
+      parsing (a request is an id), so (e) is monitor-only as well;
+  (f) the CLIENT-SIDE READING of the wire (status line, Content-Length / chunked / EOF framing) against the lone
+      runs on pipelines whose applications FAIL (OSError subclasses and other exceptions before start_response,
+      after it, after the head, in mid-body, after the last chunk; iterator and write()) crossed with
+      log_socket_errors, expose_tracebacks, the response framing, lookahead 0/1/5, and on pipelines with a SLOW
+      request in service past channel_timeout while the REAL BaseWSGIServer.maintenance runs on every poll turn
+      under the fake clock (harness.chanpipe.FaultScenario).  Monitor only.
 
 Finding F18 (found here, reproduced on the then real tree, replayed by the model; repaired in /repo
 by 8bcf05e): after popping the last request the finishing WORKER may call send_continue() -- a locked
@@ -118,7 +124,7 @@ def run(ctx):
     rng = ctx.rng
     thorough = ctx.tier == "thorough"
     t0 = time.time()
-    budget = 430.0 if thorough else 42.0
+    budget = 430.0 if thorough else 39.0
 
     # ---- (b) shape audit ---------------------------------------------------------------
     src = os.path.join(vcommon.SRC, "waitress")
@@ -482,6 +488,130 @@ def run(ctx):
                         "quiescence); NOT replayed on Model/ChanPipe.v: the model abstracts parsing (a request is an id, `received` consumes whole items)")
     sst["samples"] = seg_samples
 
+    # 7. failing applications x configuration knobs, and the inactivity reaper with a slow request in service: MONITOR ONLY
+    tf = time.time()
+    fault_budget = 70.0 if thorough else 7.0
+    fst = {"runs": 0, "overrun": 0, "justified_stalls": 0, "inconclusive_step_budget": 0, "violating_runs": 0,
+           "fault_position": {}, "exception_class": {}, "via": {}, "log_socket_errors": {}, "expose_tracebacks": {}, "response_framing": {},
+           "lookahead": {}, "pipeline_length": {}, "policies": {}, "granularity": {}, "application_raised": 0, "application_calls": 0,
+           "responses_read_by_client": {"cl": 0, "chunked": 0, "eof": 0, "cut short (last, connection closed)": 0, "500": 0},
+           "reaper": {"runs_with_maintenance": 0, "maintenance_invocations": 0, "clock_ticks": 0, "runs_with_request_in_service_past_channel_timeout": 0,
+                      "channels_reaped": 0}}
+    fault_traces = set()
+    fault_best = {}
+    fault_counts = {}
+    fault_samples = []
+
+    def bump(d, k):
+        d[str(k)] = d.get(str(k), 0) + 1
+
+    def fault_one(name, scn, policy=None, pk="default"):
+        w = H.FaultWorld(scn, policy=policy)
+        w.run()
+        fst["runs"] += 1
+        fst["overrun"] += w.verdict == "overrun"
+        fst["justified_stalls"] += w.stall is not None
+        fst["inconclusive_step_budget"] += (w.verdict == "overrun" and w.stall is None)
+        bump(fst["policies"], pk)
+        bump(fst["granularity"], scn.granularity)
+        bump(fst["lookahead"], scn.lookahead)
+        bump(fst["pipeline_length"], len(scn.reqs))
+        bump(fst["log_socket_errors"], scn.log_socket_errors)
+        bump(fst["expose_tracebacks"], scn.expose_tracebacks)
+        for r in scn.reqs:
+            bump(fst["response_framing"], r.resp)
+            if r.fault:
+                bump(fst["fault_position"], r.fault[0])
+                bump(fst["exception_class"], r.fault[1])
+                bump(fst["via"], r.fault[2])
+        fst["application_raised"] += len(w.raised)
+        fst["application_calls"] += len(w.calls)
+        parsed = H.client_parse(w.wire)
+        for pr in parsed:
+            if pr["complete"]:
+                fst["responses_read_by_client"][pr["framing"]] += 1
+                fst["responses_read_by_client"]["500"] += pr["status"].startswith(b"HTTP/1.1 500") or pr["status"].startswith(b"HTTP/1.0 500")
+            elif pr["framing"] == "eof":
+                fst["responses_read_by_client"]["eof"] += 1
+            else:
+                fst["responses_read_by_client"]["cut short (last, connection closed)"] += 1
+        if scn.maint:
+            rp = fst["reaper"]
+            rp["runs_with_maintenance"] += 1
+            rp["maintenance_invocations"] += w.listener.runs
+            rp["clock_ticks"] += w.ticks
+            rp["runs_with_request_in_service_past_channel_timeout"] += any(r.slow and r.slow[0] * r.slow[1] > scn.channel_timeout for r in scn.reqs)
+            rp["channels_reaped"] += sum(1 for e in w.sched.events if e[1] == "reaped")
+        fault_traces.add(hashlib.sha1((json.dumps(scn.to_json(), sort_keys=True) + "|" + ",".join(map(str, w.sched.choices))).encode()).hexdigest())
+        bad = H.fault_monitor(w)
+        if bad:
+            fst["violating_runs"] += 1
+            mon_ok[0] = False
+        for key, text in bad:
+            fault_counts[key] = fault_counts.get(key, 0) + 1
+            rep = replay_dict("monitor-fault", name, scn, w, {
+                "granularity": scn.granularity, "policy": pk, "configuration": scn.cfg(),
+                "expected": "reading the wire as a client (status line, Content-Length / chunked / EOF framing): every response the client can "
+                            "delimit is the lone response of the next request in order; a response cut short is last and the connection is closed; "
+                            "nothing follows a response whose lone run closes the connection; a healthy pipeline is executed and answered completely",
+                "observed": text, "application_calls": list(w.calls), "application_raised": list(w.raised),
+                "client_reading": [[pr["framing"], pr["complete"], len(pr["raw"]), (pr["status"] or b"").decode("latin-1")] for pr in parsed],
+                "wire_hex": w.wire.hex()[:900], "stall_justification": w.stall,
+                "clock_advanced_s": w.sched.clock - 1000.0, "maintenance_invocations": w.listener.runs if w.listener else 0})
+            if key not in fault_best or len(json.dumps(rep)) < len(json.dumps(fault_best[key])):
+                fault_best[key] = rep
+        return w, parsed
+
+    for name, scn in H.fault_directed() + H.maint_directed():
+        if fst["violating_runs"] >= 16:
+            break
+        w, parsed = fault_one(name, scn)
+        if len(fault_samples) < 4 and (name.startswith("cl-fault-mid-OSError-iter-lse0") or name.startswith("slow-middle-la1-w2")
+                                       or name.startswith("fault-before-start-lse0-exp1") or name.startswith("eof-fault-1")):
+            fault_samples.append({"scenario": name, "configuration": scn.cfg(), "lookahead": scn.lookahead,
+                                  "requests": [[r.path, r.resp, r.fault, r.slow] for r in scn.reqs], "application_calls": list(w.calls),
+                                  "client_reading (framing, complete, bytes, status)": [[pr["framing"], pr["complete"], len(pr["raw"]), (pr["status"] or b"").decode("latin-1")] for pr in parsed],
+                                  "connection_closed": bool(w.sock.closed), "clock_advanced_s": w.sched.clock - 1000.0,
+                                  "maintenance_invocations": w.listener.runs if w.listener else 0})
+        for i in range(8 if thorough else 2):
+            r = random.Random(rng.getrandbits(48))
+            if i % 2:
+                fault_one(name, scn, policy=H.PCTPolicy(r, 1 + (i // 2) % 3, 150), pk="pct")
+            else:
+                fault_one(name, scn, policy=H.RandomPolicy(r, stay=r.choice([0.0, 0.5, 0.9, 0.97])), pk="random")
+    n_fault_random = 0
+    while time.time() - tf < fault_budget and n_fault_random < (5000 if thorough else 500) and fst["violating_runs"] < 16:
+        r = random.Random(rng.getrandbits(48))
+        scn = H.gen_fault_scenario(r)
+        k = n_fault_random % 3
+        if k == 0:
+            fault_one("fault-random-%d" % n_fault_random, scn)
+        elif k == 1:
+            fault_one("fault-random-%d" % n_fault_random, scn, policy=H.RandomPolicy(r, stay=r.choice([0.0, 0.5, 0.9, 0.97])), pk="random")
+        else:
+            fault_one("fault-random-%d" % n_fault_random, scn, policy=H.PCTPolicy(r, r.randint(1, 3), 150 if scn.granularity == "locks" else 500), pk="pct")
+        n_fault_random += 1
+    for key, rep in sorted(fault_best.items()):
+        rep["runs_with_this_violation"] = fault_counts[key]
+        stats["monitor_violations"] += fault_counts[key]
+        report("monitor-fault:" + key, rep["observed"], rep)
+    ctx.oblige("C04 client-side reading of the wire clean on pipelines with failing applications x log_socket_errors x expose_tracebacks x response "
+               "framing x lookahead, and with a slow request in service past channel_timeout under the real maintenance() (%d runs, %d application "
+               "exceptions, %d runs with a request in service past channel_timeout; monitor only)"
+               % (fst["runs"], fst["application_raised"], fst["reaper"]["runs_with_request_in_service_past_channel_timeout"]),
+               not fault_best and fst["application_raised"] > 0 and fst["reaper"]["runs_with_request_in_service_past_channel_timeout"] > 0)
+    fst["distinct_traces"] = len(fault_traces)
+    fst["random_scenarios"] = n_fault_random
+    fst["violations_by_kind"] = fault_counts
+    fst["wall_s"] = round(time.time() - tf, 1)
+    fst["judged_by"] = ("monitor only: the wire read as a client reads it (status line, Content-Length / chunked / EOF framing) against the lone runs "
+                        "(each request alone on a fresh connection under the same adjustments, Date header excluded): delimitable responses equal the "
+                        "lone responses in order, a short or close-delimited response is last and closes the connection (also in its lone run), nothing "
+                        "after a closing response, calls are a prefix of the pipeline, a healthy pipeline is executed and answered completely with the "
+                        "connection open; plus never-mixed / one-queue-entry / justified stall.  NOT replayed on Model/ChanPipe.v: the model has no "
+                        "application failures, no adjustments besides lookahead / send_bytes, no maintenance()")
+    fst["samples"] = fault_samples
+
     ctx.oblige("K-chanpipe: every operation of every real trace is a step of Model/ChanPipe.v with the same label "
                "and the same abstract state (%d traces, %d steps)" % (stats["validated_traces"], stats["validated_steps"]),
                conf_ok[0] and stats["validated_traces"] > 0)
@@ -500,7 +630,7 @@ def run(ctx):
                 "plus monitor-only runs in which output buffers change representation under partial sends (buffer_representation_search; "
                 "counted in evaluations, not in traces_validated_against_impl) and monitor-only runs of mixed-framing pipelines "
                 "(body-less / Content-Length / chunked) under generated segmentations (segmentation_search; likewise)",
-        "evaluations": stats["runs"] + bst["runs"] + sst["runs"],
+        "evaluations": stats["runs"] + bst["runs"] + sst["runs"] + fst["runs"],
         "traces_validated_against_impl": stats["validated_traces"],
         "steps_validated": stats["validated_steps"],
         "distinct_nontrivial": len(nontrivial),
@@ -515,6 +645,7 @@ def run(ctx):
         "shape_audit_methods": sorted(list(H.EXPECTED_SHAPE) + list(H.EXPECTED_DISPATCHER_SHAPE)),
         "buffer_representation_search": bst,
         "segmentation_search": sst,
+        "application_fault_and_reaper_search": fst,
         "f18_regression": {"stored_schedule_clean": f18_clean, "model_old_shape_refuted": model_old_refuted,
                            "model_current_shape_ok": model_new_ok},
     })
@@ -530,6 +661,19 @@ def replay(data):
         print("kind=monitor-buf scenario=%s verdict=%s steps=%d wire=%d bytes (%s) migrations=%r" % (
             data.get("scenario_name"), w.verdict, len(w.sched.choices), len(w.wire), H.check_wire(scn, w.wire)[3], w.migrations))
         print("stall verdict now: %r" % (H.stall_verdict(w),))
+        print("monitor now: %r" % (bad,))
+        print("observed then: %s" % (data.get("observed"),))
+        return 1 if bad else 0
+    if data.get("kind") == "monitor-fault":
+        scn = H.FaultScenario.from_json(data["scenario"])
+        w = H.FaultWorld(scn, schedule=data["choices"])
+        w.run()
+        bad = H.fault_monitor(w)
+        print("kind=monitor-fault scenario=%s verdict=%s wire=%d bytes configuration=%r lookahead=%d" % (
+            data.get("scenario_name"), w.verdict, len(w.wire), scn.cfg(), scn.lookahead))
+        print("application calls now: %r raised: %r clock advanced: %ss maintenance ran: %s" % (
+            w.calls, w.raised, w.sched.clock - 1000.0, w.listener.runs if w.listener else 0))
+        print("client reading now: %r" % ([[pr["framing"], pr["complete"], len(pr["raw"])] for pr in H.client_parse(w.wire)],))
         print("monitor now: %r" % (bad,))
         print("observed then: %s" % (data.get("observed"),))
         return 1 if bad else 0
